@@ -28,6 +28,32 @@ def cases(tier, r):
                      'flavour': r.choice(['edits', 'edits', 'unrelated']), 'tuples': False, 'custom': True}
 
 
+def _collapse_custom(c):
+  if isinstance(c, list):
+    if c and c[0] == 'Pair':
+      return 'PAIR'
+    return [_collapse_custom(x) for x in c]
+  return c
+
+
+def _only_inside_equal_custom_nodes(target, new):
+  """The result differs from new only INSIDE values of the user-registered node type, and every
+  such value of the result is == (Python equality) to the value new holds at that path: the
+  aligned-as-a-whole-by-== behaviour of the recorded finding (a 1 vs True leaf, an object shared
+  differently), not a lost change."""
+  if _collapse_custom(graphs.skeleton(target)) != _collapse_custom(graphs.skeleton(new)):
+    return False
+  for v, path in daglish.iterate(new, memoized=False):
+    if isinstance(v, graphs.Pair):
+      try:
+        t = daglish.follow_path(target, path)
+      except Exception:
+        return False
+      if not (isinstance(t, graphs.Pair) and t == v):
+        return False
+  return True
+
+
 def diff_canon(d):
   return [repr(c) for c in d.changes] + ['--'] + [graphs.canon(v) for v in d.new_shared_values]
 
@@ -100,7 +126,7 @@ def execute(case):
     obs['got'] = graphs.canon(target, order_dicts=True)
     obs['want'] = new_before
     try:
-      obs['same_values'] = graphs.skeleton(target) == graphs.skeleton(new)
+      obs['same_values'] = graphs.skeleton(target) == graphs.skeleton(new) or _only_inside_equal_custom_nodes(target, new)
     except Exception:
       obs['same_values'] = False
   obs['diff_unchanged'] = diff_canon(d) == dc
